@@ -384,6 +384,25 @@ func (w *world) shadowOp(f []string) {
 	}
 }
 
+// tables prints the fixed tables the harness shares with the Lean model (Nt.batchCapable, the driver's `pan`,
+// Nt.reentersOn, Nt.handlerKind) so that a drift between the two copies shows as an ordinary difference.
+func tables() string {
+	bits := func(f func(int) bool) string {
+		var sb strings.Builder
+		for i := 0; i < numTargets; i++ {
+			if f(i) {
+				sb.WriteByte('1')
+			} else {
+				sb.WriteByte('0')
+			}
+		}
+		return sb.String()
+	}
+	return "tables B" + bits(isBatch) + " P" + bits(panics) +
+		" RH" + bits(func(t int) bool { return t == reentrant || t == reentrantBatch }) +
+		" RB" + bits(func(t int) bool { return t == reentrantBatch }) + " H good,bad,nil"
+}
+
 // area: dumps=false is the black-box protocol (area `notifier`), dumps=true adds white-box `dump` lines (area `nwb`).
 type area struct {
 	w     *world
@@ -403,6 +422,9 @@ func (a *area) Run(line string) string {
 		a.w = newWorld()
 	}
 	w := a.w
+	if f[0] == "tables" && len(f) == 1 {
+		return tables()
+	}
 	if len(f) < 2 {
 		return "bad-op"
 	}
